@@ -14,6 +14,7 @@ package shell
 //   RIa rejected interactive request: metacharacter argument
 //   RS  rejected streaming request: wrong password
 //   CL  close of the oldest running session (HandleStreamClose)
+// (quick: L = 3 with the third event from {VS, VI, RIp, RIc, CL}; thorough: L = 4, full alphabet)
 // is driven through the real code; accepted requests start real `sleep 30` processes, which are
 // killed by CL or by Handler.Close at the end of the history (the harness waits only on the
 // processes' done channels, with a safety timeout that is a harness error, never a verdict).
@@ -286,6 +287,9 @@ func c25Handler(r *vmc.Result) {
 			return
 		}
 		for _, a := range alphabet {
+			if !r.Thorough() && len(cur) == 2 && (a == "RIa" || a == "RS") {
+				continue // quick tier: the third event comes from {VS, VI, RIp, RIc, CL}
+			}
 			gen(append(cur, a))
 		}
 	}
@@ -299,6 +303,8 @@ func c25Handler(r *vmc.Result) {
 			}
 		}
 	}
+	start := time.Now()
+	defer func() { r.SetMax("handler_half_wall_ms", time.Since(start).Milliseconds()) }()
 	idx, done := 0, 0
 	for _, max := range []int{1, 2} {
 		for _, hs := range ordered {
